@@ -50,6 +50,12 @@ CODES = {1: "Gallina model of the copy operation and the implementation differ (
          4: "objects of the result are not fresh objects pointing at the copy / the result is not detached",
          5: "the operation changed its operand",
          6: "input heap outside the typing discipline assumed by the theorems",
+         7: "the real heap does not satisfy wf_model_heap, the hypothesis of the general separation / frame theorems "
+            "of Model.copy (coq/theories/Copy/CopyWf.v)",
+         8: "the real heap does not satisfy wf_model_content, the hypothesis of the general structure theorem of "
+            "Model.copy (coq/theories/Copy/CopyWfContent.v)",
+         9: "the real heap does not satisfy consistent_b, the hypothesis of the general equivalence theorem "
+            "model_copy_equiv (coq/theories/Copy/CopyEquiv.v)",
          11: "identity probe: a mutable Python object is reachable from both the operand and the result",
          12: "full observation (objects, raw GLPK problem, tolerance, optimum) of the copy differs from the original",
          13: "frame: an edit on one model changed the observation of the other",
@@ -57,8 +63,9 @@ CODES = {1: "Gallina model of the copy operation and the implementation differ (
          15: "the operation raised"}
 OPS = {"copy": "OpModelCopy", "deepcopy": "OpDeepcopy", "pickle": "OpPickle", "rcopy": "OpReactionCopy",
        "scopy": "OpSpeciesCopy"}
-THEOREMS = ("C12_model_copy_separated, C12_deepcopy_separated, C12_points_to_copy, C12_frame, C12_detached, "
-            "C12_table_safe (coq/theories/Properties/C12.v)")
+THEOREMS = ("C12_model_copy_separated, C12_model_copy_frame, C12_model_copy_equiv, C12_model_copy_structure, C12_model_copy_total, "
+            "C12_deepcopy_separated, C12_points_to_copy, C12_frame, C12_detached, "
+            "C12_table_safe, C12_table_shape (coq/theories/Properties/C12.v)")
 
 
 # ====================================================================================== cases
